@@ -39,6 +39,18 @@ class Clock:
 
 CLOCK = Clock()
 ENTROPY = [0]  # current entropy choice for unseeded RNG()
+# draws of the per-reply generators while a request is handled: the harness can log them and force
+# one of them to an end of its range (environment answer; every value of the range is drawn by some model)
+DRAWS: dict[str, Any] = {"active": False, "log": [], "force": None, "depth": 0}
+
+
+def _draw(kind: str, lo: Any, hi: Any, natural: Any) -> Any:
+    i = len(DRAWS["log"])
+    DRAWS["log"].append(kind)
+    f = DRAWS["force"]
+    if f is not None and f[0] == i:
+        return lo if f[1] == "lo" else hi
+    return natural
 
 
 def load() -> dict[str, Any]:
@@ -73,6 +85,26 @@ def load() -> dict[str, Any]:
                 self.seed(f"vf-entropy|{ENTROPY[0]}")
             else:
                 super().set_seeds(*args)
+
+        def _top(self, kind: str, lo: Any, hi: Any, fn: Any) -> Any:
+            if not DRAWS["active"] or DRAWS["depth"]:
+                return fn()
+            DRAWS["depth"] += 1
+            try:
+                natural = fn()  # always advances the generator: later draws stay those of the natural run
+            finally:
+                DRAWS["depth"] -= 1
+            return _draw(kind, lo, hi, natural)
+
+        def random(self) -> float:
+            return self._top("random", 0.0, 1.0 - 2**-53, lambda: orig_rng.random(self))  # type: ignore[no-any-return]
+
+        def randint(self, a: int, b: int) -> int:
+            return self._top("randint", a, b, lambda: orig_rng.randint(self, a, b))  # type: ignore[no-any-return]
+
+        def expovariate(self, lambd: float = 1.0) -> float:
+            # upper end: 8 x the mean (probability e^-8 per draw: rare but drawn by real models)
+            return self._top("expovariate", 0.0, 8.0 / lambd, lambda: orig_rng.expovariate(self, lambd))  # type: ignore[no-any-return]
 
     HarnessRNG.__name__ = orig_rng.__name__
     S.RNG = HarnessRNG  # type: ignore[misc]
@@ -240,10 +272,17 @@ class Ecu:
     def set_mask(self, mask: int) -> None:
         self.srv.behavior = behavior(mask)
 
-    def request(self, pdu: bytes, gap: float = 1.0, entropy: int = 0) -> bytes | None:
+    def request(self, pdu: bytes, gap: float = 1.0, entropy: int = 0, force: tuple[int, str] | None = None, log: bool = False) -> bytes | None:
         CLOCK.now += gap
         ENTROPY[0] = G["entropy_real"][entropy]
-        reply, _dt = drive(self.tr.handle_request(pdu))
+        if force is None and not log:
+            reply, _dt = drive(self.tr.handle_request(pdu))
+            return reply
+        DRAWS.update(active=True, log=[], force=force, depth=0)
+        try:
+            reply, _dt = drive(self.tr.handle_request(pdu))
+        finally:
+            DRAWS.update(active=False, force=None)
         return reply
 
     def snapshot(self) -> tuple[Any, ...]:
@@ -425,6 +464,52 @@ def boundary_lengths(m: ref.Model) -> list[bytes]:
                 out.append(bytes([sid, sf]) + b"\x55" * 4093)
                 out.append(bytes([sid, sf | 0x80]) + b"\x55" * 4093)
     return out
+
+
+def length_ladder(m: ref.Model) -> list[bytes]:
+    """request lengths around every power of two up to the ISO-TP maximum, for a few services."""
+    out: list[bytes] = []
+    lens = sorted({n + d for k in range(4, 12) for n in (2**k,) for d in (-1, 0, 1)} | {3000, 4094})
+    sids = [0x3E, 0x22, 0x2E, 0x36] + [sid for sid in sorted(m.anywhere) if sid not in (0x3E, 0x22, 0x2E, 0x36)][:2]
+    for sid in sids:
+        for n in lens:
+            out.append(bytes([sid]) + bytes((i * 7 + n) & 0xFF for i in range(n - 1)))
+    return out
+
+
+class _Captured(Exception):
+    pass
+
+
+def capture_stream_server(transport: Any) -> tuple[Any, int, str]:
+    """Run the transport's own ``run()`` up to its ``asyncio.start_server`` / ``start_unix_server`` call and return
+    (client_connected_cb, StreamReader limit it asks for, which function) - so the harness reads requests with
+    exactly the stream parameters the real server would use."""
+    import asyncio
+
+    got: list[Any] = []
+
+    def fake(which: str) -> Any:
+        async def start(cb: Any, *a: Any, limit: int = 2**16, **kw: Any) -> Any:
+            got.append((cb, limit, which))
+            raise _Captured
+
+        return start
+
+    saved = (asyncio.start_server, asyncio.start_unix_server)
+    asyncio.start_server, asyncio.start_unix_server = fake("start_server"), fake("start_unix_server")  # type: ignore[assignment]
+    try:
+        try:
+            drive(transport.run())
+        except _Captured:
+            pass
+    finally:
+        asyncio.start_server, asyncio.start_unix_server = saved  # type: ignore[assignment]
+    if not got:
+        from vf.engine.runner import Broken
+
+        raise Broken(f"{type(transport).__name__}.run() no longer goes through asyncio.start_server / start_unix_server")
+    return got[0]
 
 
 _GEN_ARGS: dict[str, list[tuple[Any, ...]]] = {
